@@ -659,6 +659,20 @@ func shrink(c Case) Case {
 			c = d
 		}
 	}
+	if c.AliasA {
+		d := c
+		d.AliasA = false
+		if fails(d) {
+			c = d
+		}
+	}
+	if c.AliasX {
+		d := c
+		d.AliasX = false
+		if fails(d) {
+			c = d
+		}
+	}
 	// view cases: which operands need to be views?  (a view that shares the workspace of a dropped operand gets
 	// its own workspace of the same dimensions)
 	for _, name := range viewNames(c) {
@@ -732,6 +746,8 @@ func huntCase(r *Rng) Case {
 		c.Msk, c.MskNil = allTrue(n), true
 		c.InSitu = r.Bool()
 		c.InSituA = r.Intn(4) == 0
+		c.AliasX = r.Intn(3) == 0
+		c.AliasA = r.Intn(5) == 0
 		if !upperTri(c.A) {
 			c.A = triMat(r, n)
 		}
@@ -760,7 +776,7 @@ func hunt(o Opts) {
 	var r res
 	seen := map[string]bool{}
 	classOf := func(c Case, f string) string {
-		return fmt.Sprint(c.Kind, c.Mode, c.UT, c.InSituA, prefixMask(c.Msk), c.et(), len(c.Pre) > 0) + "|" + stripNumbers(f)
+		return fmt.Sprint(c.Kind, c.Mode, c.UT, c.InSituA, c.AliasX, prefixMask(c.Msk), c.et(), len(c.Pre) > 0) + "|" + stripNumbers(f)
 	}
 	var hist []Case // every call this process has made so far, in order
 	report := func(c Case, f0 string, before []Case) {
